@@ -327,6 +327,11 @@ C_ADV = re.compile(r"\b(jpeg_start_compress|jpeg_write_coefficients|jinit_c_mast
 D_ADV = re.compile(r"\b(jpeg_read_header|jpeg_start_decompress|jpeg_read_coefficients|jinit_master_decompress)\s*\(\s*(dinfo|&this->dinfo)\b")
 TMP = re.compile(r"\bhandle2\s*=\s*tj3Init\s*\(")
 
+CUR_BITS = {}
+for n_, b_, s_ in fns:
+    mb_ = re.match(r"tj3\w+?(8|12|16)$", n_)
+    if s_ == "turbojpeg-mp.c" and mb_:
+        CUR_BITS[n_] = mb_.group(1)
 api = []
 for name, body, src in fns:
     handlers = []
@@ -349,7 +354,18 @@ for name, body, src in fns:
     if tmp:
         uses_c = uses_d = False     # works on a temporary instance that the bailout destroys
     throws = len(re.findall(r"\bTHROW\w*\s*\(", body))
-    api.append((name, src, uses_c, uses_d, tmp, handlers, bail, throws))
+    calls = []
+    for cm_ in re.finditer(r"\b(tj3?[A-Z]\w*|TJBUFSIZE\w*|GET_NAME\s*\(\s*(tj3\w+)\s*,\s*BITS_IN_JSAMPLE\s*\))\s*\(", body):
+        cn = cm_.group(2) + str(CUR_BITS.get(name, "")) if cm_.group(2) else cm_.group(1)
+        if cn in names and cn != name and cn not in calls:
+            calls.append(cn)
+    libjpeg = bool(re.search(r"\b(jpeg_\w+|jinit_\w+|j\d*init_\w+|jcopy_\w+|jtransform_\w+|setjmp)\s*\(", body)) or \
+        bool(re.search(r"\(\s*\*\s*(cinfo|dinfo|src|dst)->", body))
+    writes = sorted(set(m_.group(1) for m_ in re.finditer(r"\bthis->([\w.]+)\s*(?:=(?!=)|\+=)", body)
+                        if m_.group(1) not in ("jerr.warning", "isInstanceError")))
+    if re.search(r"\bprocessFlags\s*\(", body):
+        writes.append("processFlags")
+    api.append((name, src, uses_c, uses_d, tmp, handlers, bail, throws, calls, libjpeg, writes))
 
 # --------------------------------------------------------------------------- tj3Set table
 hdr = strip_comments(rd("src/turbojpeg.h"))
@@ -786,20 +802,34 @@ Inductive hstmt :=
   | HRestoreMarkerMethods (c : hcond) | HRestoreStartInputPass (c : hcond)
   | HOther (c : hcond) (text : string).
 Record apifn := { fn_name : string; fn_file : string; fn_uses_c : bool; fn_uses_d : bool; fn_tmp_instance : bool;
-                  fn_handlers : list (list hstmt); fn_bailout : option (list hstmt); fn_throws : Z }.
+                  fn_handlers : list (list hstmt); fn_bailout : option (list hstmt); fn_throws : Z;
+                  fn_calls : list string;      (* other exported functions it calls *)
+                  fn_libjpeg : bool;           (* calls libjpeg / installs a setjmp handler itself *)
+                  fn_writes : list string      (* tjinstance members it assigns itself (error bookkeeping aside) *) }.
 Inductive pneed := NeedNone | NeedC | NeedD.
 Record tjparam := { p_name : string; p_id : Z; p_field : string; p_lo : Z; p_hi : Z; p_bool : bool; p_need : pneed;
                     p_readonly : bool; p_clears : string }.
 """)
 print("Definition api_functions : list apifn :=\n  [")
 rows = []
-for name, src, uc, ud, tmp, handlers, bail, throws in api:
+for name, src, uc, ud, tmp, handlers, bail, throws, calls, libjpeg, writes in api:
     hs = coq_list([coq_list(h) for h in handlers])
     bl = "None" if bail is None else "Some " + coq_list(bail)
-    rows.append('   {| fn_name := %s; fn_file := %s; fn_uses_c := %s; fn_uses_d := %s; fn_tmp_instance := %s;\n      fn_handlers := %s;\n      fn_bailout := %s; fn_throws := %d |}'
-                % (qs(name), qs(src), str(uc).lower(), str(ud).lower(), str(tmp).lower(), hs, bl, throws))
+    rows.append('   {| fn_name := %s; fn_file := %s; fn_uses_c := %s; fn_uses_d := %s; fn_tmp_instance := %s;\n      fn_handlers := %s;\n      fn_bailout := %s; fn_throws := %d;\n      fn_calls := %s; fn_libjpeg := %s; fn_writes := %s |}'
+                % (qs(name), qs(src), str(uc).lower(), str(ud).lower(), str(tmp).lower(), hs, bl, throws,
+                   coq_list([qs(c) for c in calls]), str(libjpeg).lower(), coq_list([qs(w) for w in writes])))
 print(";\n".join(rows))
 print("  ].\n")
+exported = []
+for mm_ in re.finditer(r"\bDLLEXPORT\b[^;{(]*?\b(\w+)\s*\(", hdr):
+    if mm_.group(1) not in exported and mm_.group(1) not in ("__declspec", "__attribute__", "defined"):
+        exported.append(mm_.group(1))
+if len(exported) < 60 or "tj3Compress8" not in exported:
+    sys.exit("turbojpeg.h: DLLEXPORT declarations not found")
+missing_def = [e for e in exported if e not in names]
+if missing_def:
+    sys.exit("turbojpeg.h declares functions without a definition in turbojpeg.c / turbojpeg-mp.c: %s" % missing_def)
+print("(* every function turbojpeg.h exports *)\nDefinition exported_functions : list string :=\n  %s.\n" % coq_list([qs(e) for e in exported]))
 print("Definition tj3set_table : list tjparam :=\n  [")
 print(";\n".join('   {| p_name := %s; p_id := %d; p_field := %s; p_lo := %d; p_hi := %d; p_bool := %s; p_need := %s; p_readonly := %s; p_clears := %s |}'
                 % (qs(n), i, qs(f), lo, hi, str(isb).lower(), need, str(ro).lower(), qs(cl)) for n, i, f, lo, hi, isb, need, ro, cl in params))
